@@ -103,12 +103,10 @@ def replaceBody (doc : Doc) (a b : Id) : Doc :=
     rels := doc.rels.map (renameRel a b),
     packages := if kept.isEmpty then doc.packages else kept }
 
-/-- `replacePackage(doc, originalID, newID)` as pinned: no special case for `originalID == newID`
-(then every element with that id is deleted, F11b). -/
-def replacePackage (doc : Doc) (a b : Id) : Doc := replaceBody doc a b
-
-/-- what the property needs: replacing an id by itself changes nothing -/
-def Spec.replacePackage (doc : Doc) (a b : Id) : Doc := if a = b then doc else replaceBody doc a b
+/-- `replacePackage(doc, originalID, newID)`.  It starts with `if originalID == newID { return }` since
+the repair of F11b; the pinned code ran `replaceBody` unconditionally, which deletes every element
+carrying the id when both ids are equal. -/
+def replacePackage (doc : Doc) (a b : Id) : Doc := if a = b then doc else replaceBody doc a b
 
 /-! ### copySBOMElements -/
 
